@@ -19,6 +19,16 @@ Theorem C17_read_line_successive : forall text sched k,
 Proof. exact read_line_successive_lemma. Qed.
 Print Assumptions C17_read_line_successive.
 
+(* Spelled out without the reference function: for a text made of complete lines [ls]
+   (each followed by a newline) and a remainder [last] without newline (possibly empty),
+   the calls return the lines in order, then the remainder, then "" for ever
+   ([take_pad k l]: the first k elements of l, padded with ""). *)
+Theorem C17_lines_then_remainder_then_empty : forall ls last sched k,
+  Forall (fun l => ~ In 10 l) ls -> ~ In 10 last ->
+  option_map (map fst) (run (unlines_with ls last) sched k) = Some (take_pad k (ls ++ [last])).
+Proof. exact read_line_lines_then_remainder. Qed.
+Print Assumptions C17_lines_then_remainder_then_empty.
+
 (* The same with the input given as the pieces handed out by the operating system. *)
 Theorem C17_read_line_successive_chunks : forall (chunks : list (list Z)) k,
   option_map (map fst) (run (concat chunks) (map zlen chunks) k) = Some (expected (concat chunks) k).
